@@ -216,6 +216,9 @@ class HarnessError(Exception):
 def safe_execute(spec, plan):
     """execute; exceptions that escape the property's own classification are harness errors"""
     try:
+        sp = sys.modules.get("simkit.simproc")
+        if sp is not None:
+            sp.reset_entropy()
         out = spec.execute(plan)
     except HarnessError:
         raise
